@@ -292,6 +292,13 @@ def run(ctx):
         for ff in okff:
             jobs.append({"id": len(jobs) + 1, "klass": f"strand {kind} {s_}", "args": [f"--ff={ff}"], "fs0": "absent", "fault": None, "kind": "success",
                          "input": "TEXT:" + gen.pdb_text([gen.nucleic(s_, kind), gen.water((20, 14, 4), resseq=101)])})
+    # complete peptides titrated with PROPKA at acid, neutral and basic pH under every force field: states the force field cannot
+    # name are left alone (with a warning), so the run still succeeds
+    for ff in ffs:
+        for ph in ("2", "7", "12"):
+            for seq in (["ALA", "GLU", "ASP", "LYS", "TYR", "HIS", "CYS", "ALA"], ["GLU", "ALA", "PHE", "ARG", "LYS"]):
+                jobs.append({"id": len(jobs) + 1, "klass": f"{'-'.join(seq)} titrated at pH {ph}", "args": [f"--ff={ff}", "--titration-state-method=propka", f"--with-ph={ph}"],
+                             "fs0": "absent", "fault": None, "kind": "success", "input": "TEXT:" + gen.pdb_text([gen.peptide(seq) + gen.water((6, 14, 4), resseq=101)])})
     # every nucleotide type at the 5' and at the 3' end of a strand
     for kind, s_, okff in (("D", "TACG", ["AMBER", "CHARMM", "TYL06"]), ("D", "CGAT", ["AMBER", "CHARMM", "TYL06"]), ("D", "GCTA", ["CHARMM"]),
                            ("R", "UACG", ["AMBER", "CHARMM", "TYL06", "PARSE"]), ("R", "CGAU", ["CHARMM", "PARSE"]), ("R", "GCUA", ["AMBER"])):
